@@ -5,6 +5,10 @@
             internal/dag/graph.go (GetDependencies/GetDependants/GetAncestors/GetDescendants),
             internal/cmd/cmds/{deps,rdeps,owners,list}.go, model.PrintSortedLabels.
 
+   The model follows the code AFTER the repair of C19-F1..F3 / C20-F1 (visited sets in
+   selectAllAncestorsForBuild, GetAncestors, GetDescendants; label.PrintSorted compacts); the
+   path-enumerating versions are kept at the end of the traversal part as history.
+
    Graphs are index-level (Graph.v): node i's in-edges (dependencies, declaration order,
    one entry per declared dependency) are [deps g i]; its out-edges are [dependants g i].
    An alias is a node of kind [KAlias] whose only dependency is its `actual`.  The Go code
@@ -94,47 +98,43 @@ Definition node_match (cfg : config) (a : node) : bool :=
 
 (* ------------------------------------------------------------------ build selection *)
 
-(* the loop body of selectAllAncestorsForBuild over the dependency list; [rec] is the
-   recursive call.  None = the platform error; Some m = the nodes marked, in visit order,
-   one entry per visit (duplicates = repeated visits). *)
-Fixpoint sel_list (ok : nat -> bool) (rec : nat -> option (list nat)) (ds : list nat) : option (list nat) :=
+(* the loop body of selectAllAncestorsForBuild over the dependency list, threading the visited
+   map ([vis], newest first): a dependency that is in the map is skipped; otherwise it is
+   platform-checked (None = the platform error), entered into the map, selected, and [rec] is
+   the recursive call. *)
+Fixpoint selv_list (ok : nat -> bool) (rec : nat -> list nat -> option (list nat)) (ds : list nat) (vis : list nat)
+  : option (list nat) :=
   match ds with
-  | [] => Some []
+  | [] => Some vis
   | d :: ds' =>
-      if ok d then
-        match rec d with
+      if mem_nat d vis then selv_list ok rec ds' vis
+      else if ok d then
+        match rec d (d :: vis) with
         | None => None
-        | Some m1 => match sel_list ok rec ds' with
-                     | None => None
-                     | Some m2 => Some (d :: m1 ++ m2)
-                     end
+        | Some vis' => selv_list ok rec ds' vis'
         end
       else None
   end.
 
-(* selectAllAncestorsForBuild: recursion over the dependencies, NO visited set.  Under a
-   topological numbering the recursion depth from n is at most n, so fuel [S n] suffices. *)
-Fixpoint sel_anc (g : graph) (ok : nat -> bool) (fuel n : nat) : option (list nat) :=
+(* selectAllAncestorsForBuild.  Under a topological numbering the recursion depth from n is at
+   most n, so fuel [S n] suffices. *)
+Fixpoint selv_anc (g : graph) (ok : nat -> bool) (fuel n : nat) (vis : list nat) : option (list nat) :=
   match fuel with
-  | 0 => Some []
-  | S f => sel_list ok (sel_anc g ok f) (deps g n)
+  | 0 => Some vis
+  | S f => selv_list ok (selv_anc g ok f) (deps g n) vis
   end.
 
-Definition select_ancestors (g : graph) (ok : nat -> bool) (n : nat) : option (list nat) :=
-  sel_anc g ok (S n) n.
-
-(* the root loop of SelectTargetsForBuild *)
-Fixpoint select_roots (g : graph) (ok : nat -> bool) (rs : list nat) : option (list nat) :=
+(* the root loop of SelectTargetsForBuild: one visited map for all roots; a root that is in the
+   map already (it is a dependency of an earlier root) is not traversed again *)
+Fixpoint selv_roots (g : graph) (ok : nat -> bool) (rs : list nat) (vis : list nat) : option (list nat) :=
   match rs with
-  | [] => Some []
+  | [] => Some vis
   | r :: rs' =>
-      match select_ancestors g ok r with
-      | None => None
-      | Some m => match select_roots g ok rs' with
-                  | None => None
-                  | Some m' => Some (r :: m ++ m')
-                  end
-      end
+      if mem_nat r vis then selv_roots g ok rs' vis
+      else match selv_anc g ok (S r) r (r :: vis) with
+           | None => None
+           | Some vis' => selv_roots g ok rs' vis'
+           end
   end.
 
 Definition roots (cfg : config) (ns : list node) (g : graph) : list nat :=
@@ -143,8 +143,9 @@ Definition roots (cfg : config) (ns : list node) (g : graph) : list nat :=
 Definition plat_okb (cfg : config) (ns : list node) (i : nat) : bool :=
   node_matches_platform cfg (attr ns i).
 
+(* the visited map at the end = the nodes on which Select() was called, each once *)
 Definition select_marks (cfg : config) (ns : list node) (g : graph) : option (list nat) :=
-  select_roots g (plat_okb cfg ns) (roots cfg ns g).
+  selv_roots g (plat_okb cfg ns) (roots cfg ns g) [].
 
 (* the set of marked nodes as a sorted duplicate-free list of indices *)
 Definition normalize (g : graph) (marks : list nat) : list nat :=
@@ -194,15 +195,67 @@ Definition spec_roots (cfg : config) (ns : list node) (g : graph) : list nat :=
 
 (* the selection a repaired selector would compute: same traversal, roots of the property's reading *)
 Definition select_for_build_spec (cfg : config) (ns : list node) (g : graph) : sel_result :=
-  match select_roots g (plat_okb cfg ns) (spec_roots cfg ns g) with
+  match selv_roots g (plat_okb cfg ns) (spec_roots cfg ns g) [] with
   | None => PlatformError
   | Some m => Selected (normalize g m)
   end.
 
-(* ------------------------------------------------------------------ path-enumerating traversals *)
+(* ------------------------------------------------------------------ traversals with their cost (C19, C20) *)
 
-(* GetAncestors (next = deps g) and GetDescendants (next = dependants g): every node is
-   appended once per path that reaches it. *)
+(* GetAncestors (next = deps g), GetDescendants (next = dependants g) and the traversal of
+   selectAllAncestorsForBuild (next = deps g, no platform constraint): depth-first, every node is
+   entered once.  State = (visited, cost); [visited] is the visited map, newest first; cost counts
+   one unit per entry into the recursive function and one per edge inspected (loop iteration),
+   so it bounds the running time up to the cost of a map operation. *)
+Fixpoint dfs_list (rec : nat -> list nat * nat -> list nat * nat) (ds : list nat) (st : list nat * nat)
+  : list nat * nat :=
+  match ds with
+  | [] => st
+  | d :: ds' =>
+      let '(vis, c) := st in
+      if mem_nat d vis then dfs_list rec ds' (vis, S c)
+      else dfs_list rec ds' (rec d (d :: vis, S c))
+  end.
+
+Fixpoint dfs (next : nat -> list nat) (fuel n : nat) (st : list nat * nat) : list nat * nat :=
+  match fuel with
+  | 0 => (fst st, S (snd st))
+  | S f => dfs_list (dfs next f) (next n) (fst st, S (snd st))
+  end.
+
+(* the nodes returned (the start node is in the map from the beginning and is not returned), in
+   the order of the Go slice = the order in which they are first reached, and the cost *)
+Definition ancestors_visited (g : graph) (n : nat) : list nat * nat :=
+  let '(vis, c) := dfs (deps g) (S n) n ([n], 0) in (rev (removelast vis), c).
+Definition descendants_visited (g : graph) (n : nat) : list nat * nat :=
+  let '(vis, c) := dfs (dependants g) (size g) n ([n], 0) in (rev (removelast vis), c).
+(* selection of one root on a graph without platform constraints (the root is marked, then its
+   ancestors): the visited map (newest first) and the cost *)
+Definition select_visited (g : graph) (r : nat) : list nat * nat := dfs (deps g) (S r) r ([r], 0).
+
+Definition select_visited_cost (g : graph) (r : nat) : nat := snd (select_visited g r).
+Definition ancestors_visited_cost (g : graph) (n : nat) : nat := snd (ancestors_visited g n).
+Definition descendants_visited_cost (g : graph) (n : nat) : nat := snd (descendants_visited g n).
+
+(* entries into the recursive function alone (what the harness counts on the implementation):
+   one per node in the map *)
+Definition select_visited_calls (g : graph) (r : nat) : nat := length (fst (select_visited g r)).
+Definition ancestors_visited_calls (g : graph) (n : nat) : nat := S (length (fst (ancestors_visited g n))).
+Definition descendants_visited_calls (g : graph) (n : nat) : nat := S (length (fst (descendants_visited g n))).
+
+(* V and E *)
+Definition edges (g : graph) : nat := fold_right (fun ds acc => length ds + acc) 0 g.
+
+(* ------------------------------------------------------------------ before the repair (history) *)
+
+(* The traversals as they were before the visited sets were introduced (findings C19-F1..F3,
+   C20-F1): no longer the code.  They are kept as the reference the history lemmas of
+   Select_proofs.v speak about (number of calls = number of dependency paths + 1, exponential on
+   ladders) and as the specification-level "all paths" enumeration whose de-duplication
+   ([ancestors_set] / [descendants_set]) the visited traversals are compared with. *)
+
+(* the former GetAncestors (next = deps g) and GetDescendants (next = dependants g): every node
+   is appended once per path that reaches it. *)
 Fixpoint paths (next : nat -> list nat) (fuel n : nat) : list nat :=
   match fuel with
   | 0 => []
@@ -215,8 +268,6 @@ Definition descendants_paths (g : graph) (n : nat) : list nat := paths (dependan
 Definition dedup_nat (l : list nat) : list nat := nodup Nat.eq_dec l.
 Definition ancestors_set (g : graph) (n : nat) : list nat := dedup_nat (ancestors_paths g n).
 Definition descendants_set (g : graph) (n : nat) : list nat := dedup_nat (descendants_paths g n).
-
-(* ------------------------------------------------------------------ cost semantics (C19) *)
 
 (* [calls] = number of times the Go function is entered. *)
 
@@ -234,7 +285,7 @@ Fixpoint paths_c (next : nat -> list nat) (fuel n : nat) : list nat * nat :=
 Definition ancestors_paths_c (g : graph) (n : nat) : list nat * nat := paths_c (deps g) (S n) n.
 Definition descendants_paths_c (g : graph) (n : nat) : list nat * nat := paths_c (dependants g) (size g) n.
 
-(* selectAllAncestorsForBuild; on the platform error the function returns early, so only the
+(* the former selectAllAncestorsForBuild (one call per dependency path); on the platform error the function returns early, so only the
    calls made until then are counted *)
 Fixpoint sel_list_c (ok : nat -> bool) (rec : nat -> option (list nat) * nat) (ds : list nat)
   : option (list nat) * nat :=
@@ -276,50 +327,15 @@ Fixpoint select_roots_c (g : graph) (ok : nat -> bool) (rs : list nat) : option 
       end
   end.
 
-(* whole SelectTargetsForBuild: calls of selectAllAncestorsForBuild over all roots *)
+(* whole former SelectTargetsForBuild: calls of selectAllAncestorsForBuild over all roots *)
 Definition select_marks_c (cfg : config) (ns : list node) (g : graph) : option (list nat) * nat :=
   select_roots_c g (plat_okb cfg ns) (roots cfg ns g).
 
-(* the quantity the C19 theorems speak about: calls made by selecting the single root r on a
-   graph without platform constraints *)
+(* calls made by selecting the single root r on a graph without platform constraints *)
 Definition select_paths_cost (g : graph) (r : nat) : nat :=
   snd (select_ancestors_c g (fun _ => true) r).
 Definition ancestors_paths_cost (g : graph) (n : nat) : nat := snd (ancestors_paths_c g n).
 Definition descendants_paths_cost (g : graph) (n : nat) : nat := snd (descendants_paths_c g n).
-
-(* --- the same traversals WITH a visited set.  State = (visited, cost); cost counts one unit
-   per function entry and one per edge inspected (loop iteration), so it bounds the running
-   time up to the cost of a set operation. *)
-Fixpoint dfs_list (rec : nat -> list nat * nat -> list nat * nat) (ds : list nat) (st : list nat * nat)
-  : list nat * nat :=
-  match ds with
-  | [] => st
-  | d :: ds' =>
-      let '(vis, c) := st in
-      if mem_nat d vis then dfs_list rec ds' (vis, S c)
-      else dfs_list rec ds' (rec d (d :: vis, S c))
-  end.
-
-Fixpoint dfs (next : nat -> list nat) (fuel n : nat) (st : list nat * nat) : list nat * nat :=
-  match fuel with
-  | 0 => (fst st, S (snd st))
-  | S f => dfs_list (dfs next f) (next n) (fst st, S (snd st))
-  end.
-
-(* visited nodes other than the start node (= the ancestor / descendant set), and the cost *)
-Definition ancestors_visited (g : graph) (n : nat) : list nat * nat :=
-  let '(vis, c) := dfs (deps g) (S n) n ([n], 0) in (removelast vis, c).
-Definition descendants_visited (g : graph) (n : nat) : list nat * nat :=
-  let '(vis, c) := dfs (dependants g) (size g) n ([n], 0) in (removelast vis, c).
-(* selection of one root with a visited set (the root is marked, then its ancestors) *)
-Definition select_visited (g : graph) (r : nat) : list nat * nat := dfs (deps g) (S r) r ([r], 0).
-
-Definition select_visited_cost (g : graph) (r : nat) : nat := snd (select_visited g r).
-Definition ancestors_visited_cost (g : graph) (n : nat) : nat := snd (ancestors_visited g n).
-Definition descendants_visited_cost (g : graph) (n : nat) : nat := snd (descendants_visited g n).
-
-(* V and E *)
-Definition edges (g : graph) : nat := fold_right (fun ds acc => length ds + acc) 0 g.
 
 (* ------------------------------------------------------------------ queries (C20) *)
 
@@ -327,16 +343,31 @@ Definition edges (g : graph) : nat := fold_right (fun ds acc => length ds + acc)
 Definition query_cfg (cfg : config) : config :=
   mkCfg [] (ctags cfg) (cexcl cfg) (ctype cfg) (cplat cfg) (callplat cfg).
 
-(* model.PrintSortedLabels: the labels of the given nodes, sorted, NOT de-duplicated *)
-Definition print_sorted (ns : list node) (l : list nat) : list str :=
+(* the labels of the given nodes, sorted (sort.Strings) *)
+Definition sorted_labels (ns : list node) (l : list nat) : list str :=
   sort_strs (map (fun i => print_label (nlabel (attr ns i))) l).
+
+(* slices.Compact: one element of every run of equal neighbours *)
+Fixpoint compact_strs (l : list str) : list str :=
+  match l with
+  | [] => []
+  | x :: l' =>
+      match l' with
+      | [] => [x]
+      | y :: _ => if str_eqb x y then compact_strs l' else x :: compact_strs l'
+      end
+  end.
+
+(* model.PrintSortedLabels / label.PrintSorted: sorted, then compacted: each label once *)
+Definition print_sorted (ns : list node) (l : list nat) : list str := compact_strs (sorted_labels ns l).
 
 (* Selector.FilterNodes *)
 Definition filter_nodes (cfg : config) (ns : list node) (l : list nat) : list nat :=
   filter (fun i => node_match cfg (attr ns i)) l.
 
-Definition deps_t (g : graph) (n : nat) : list nat := ancestors_paths g n.
-Definition rdeps_t (g : graph) (n : nat) : list nat := descendants_paths g n.
+(* GetAncestors / GetDescendants *)
+Definition deps_t (g : graph) (n : nat) : list nat := fst (ancestors_visited g n).
+Definition rdeps_t (g : graph) (n : nat) : list nat := fst (descendants_visited g n).
 
 (* grog deps [-t] [--target-type=..] <n> *)
 Definition deps_query (cfg : config) (ns : list node) (g : graph) (n : nat) (transitive : bool) : list str :=
@@ -346,7 +377,8 @@ Definition deps_query (cfg : config) (ns : list node) (g : graph) (n : nat) (tra
 Definition rdeps_query (cfg : config) (ns : list node) (g : graph) (n : nat) (transitive : bool) : list str :=
   print_sorted ns (filter_nodes (query_cfg cfg) ns (if transitive then rdeps_t g n else dependants g n)).
 
-(* the same with each label once (what C20 asks for) *)
+(* the same with the node list de-duplicated before filtering (equal to the above as lists of lines; kept for the
+   check, which compares the two) *)
 Definition deps_query_dedup (cfg : config) (ns : list node) (g : graph) (n : nat) (transitive : bool) : list str :=
   print_sorted ns (filter_nodes (query_cfg cfg) ns (dedup_nat (if transitive then deps_t g n else deps g n))).
 Definition rdeps_query_dedup (cfg : config) (ns : list node) (g : graph) (n : nat) (transitive : bool) : list str :=
@@ -365,6 +397,6 @@ Definition owners_idx (ns : list node) (files : list str) : list nat :=
   filter (fun i => existsb (owns (attr ns i)) files) (seq 0 (length ns)).
 Definition owners (ns : list node) (files : list str) : list str := print_sorted ns (owners_idx ns files).
 
-(* grog list [--target-type=..] <patterns>: SelectTargets then LogSelectedNodes (sorted) *)
+(* grog list [--target-type=..] <patterns>: SelectTargets then LogSelectedNodes (sorted; one line per selected node) *)
 Definition list_query (cfg : config) (ns : list node) (g : graph) : list str :=
-  print_sorted ns (select_targets cfg ns g).
+  sorted_labels ns (select_targets cfg ns g).
